@@ -429,7 +429,25 @@ mutual
       | .text s => pure [.text s]
       | .out e =>
         match evalExpr ctx e with
-        | .slotRef nodes stored => renderNodes env n nodes (stored.getD ctx)   -- SlotRef.__str__
+        | .slotRef nodes Option.none => renderNodes env n nodes ctx   -- SlotRef.__str__ (same Context object)
+        | .slotRef nodes (some stored) => do
+          -- isolated mode, inside a fill: the fill is being rendered in the component's `outer_context` object (one
+          -- per instance, shared by all its slot renders), which right now carries every layer pushed so far —
+          -- i.e. it is the current `ctx`.  Slots of the same instance rendered while the default content prints
+          -- see that state.
+          let cid? : Option Nat := match ctxGet stored compKey with | some (.compRef c) => some c | _ => Option.none
+          match cid? with
+          | Option.none => renderNodes env n nodes stored
+          | some cid =>
+            let saved := (alGet cid (← get).ctxCache).bind (·.outer)
+            modify (fun w => match alGet cid w.ctxCache with
+              | some c => { w with ctxCache := alSet cid { c with outer := some ctx } w.ctxCache }
+              | Option.none => w)
+            let out ← renderNodes env n nodes stored
+            modify (fun w => match alGet cid w.ctxCache with
+              | some c => { w with ctxCache := alSet cid { c with outer := saved } w.ctxCache }
+              | Option.none => w)
+            pure out
         | v => pure [.text (pyStr v)]
       | .ifn c t e => if truthy (evalExpr ctx c) then renderNodes env n t ctx else renderNodes env n e ctx
       | .forn x e body => renderFor env n x (iterVals (evalExpr ctx e)) 0 body ctx
@@ -677,20 +695,7 @@ mutual
         let c3 := match getLastIndex (hasL compKey) c2 with
           | some (i + 1) => insertAt i f.extra c2
           | _ => insertAt (c2.length - 1) f.extra c2          -- `insert(-1, …)`
-        -- isolated mode: `used_ctx` IS the component's `outer_context` object (one per instance, shared by all its
-        -- slot renders).  While this fill renders, that object carries the layers pushed above — visible to any
-        -- other slot of the same instance that is rendered meanwhile (through a `default=` alias).
-        let shared := env.isolated && fill.isSome && cc.outer.isSome
-        if shared then
-          modify (fun w => match alGet cid w.ctxCache with
-            | some c => { w with ctxCache := alSet cid { c with outer := some c3 } w.ctxCache }
-            | none => w)
-        let out ← renderNodes env n f.nodes c3
-        if shared then
-          modify (fun w => match alGet cid w.ctxCache with
-            | some c => { w with ctxCache := alSet cid { c with outer := cc.outer } w.ctxCache }
-            | none => w)
-        pure out
+        renderNodes env n f.nodes c3
 end
 
 end Djc.Render
